@@ -41,6 +41,27 @@ func refBCDDecode(b []byte) (string, bool) {
 func c12(c *Ctx) {
 	c.Res.Rule = "exhaustive: all strings up to length L over a 12-symbol alphabet (digits 0 1 5 9, 'a', '/', ':', space, 'é', Arabic-Indic digit three, NUL, byte 0xff) and all byte slices up to length B; random: digit strings of length 0..64, one bad character / one bad nibble at every position; each case checks exact bytes, error <=> bad symbol, and both round trips; distinct = distinct inputs"
 	r := c.Rng("main")
+	// first use of the package by 16 goroutines at once (a fresh process per batch)
+	firstUse(c, "C12:first-use", "the BCD coder", 12, func(g int) {
+		for k := 0; k < 50; k++ {
+			b := []byte{byte(0x10*((g+k)%10) + (k % 10)), 0x20, 0x24, byte(0x10*(k%10) + g%10)}
+			want, _ := refBCDDecode(b)
+			c.Res.Eval(1)
+			if got, err := bcd.Decode(b); err != nil || got != want {
+				c.Res.Violate("C12:first-use:decode", fmt.Sprintf("bcd.Decode(%x) = %q, %v (expected %q) when 16 goroutines used the package for the first time at the same moment", b, got, err, want), map[string]any{"input": wk.Hex(b)}, -10)
+				return
+			}
+			s := want[k%3:]
+			wantB, _ := refBCDEncode(s)
+			if got, err := bcd.Encode(s); err != nil || got == nil || string(*got) != string(wantB) {
+				c.Res.Violate("C12:first-use:encode", fmt.Sprintf("bcd.Encode(%q) = %x, %v (expected %x) when 16 goroutines used the package for the first time at the same moment", s, deref(got), err, wantB), map[string]any{"input": s}, -10)
+				return
+			}
+		}
+	})
+	if c.Mode == "firstuse" {
+		return
+	}
 	alphabet := []string{"0", "1", "5", "9", "a", "/", ":", " ", "é", "٣", "\x00", "\xff"}
 	var caseNo int64
 
@@ -87,6 +108,23 @@ func c12(c *Ctx) {
 			}
 			if again, aerr := bcd.Encode(s); aerr != nil || again == nil || string(*again) != string(want) {
 				c.Res.Violate("C12:encode:depends-on-earlier-result", fmt.Sprintf("bcd.Encode(%q) = %x after the caller overwrote the slice an earlier Encode of the same string returned; expected %x", s, deref(again), want), map[string]any{"input": s, "mode": tag}, caseNo)
+			}
+			// ... nor does growing it: append to a result, then encode other strings (an odd one first: its pad nibble must be zero)
+			if caseNo%7 == 0 {
+				if first, ferr := bcd.Encode(s); ferr == nil && first != nil {
+					grown := append(*first, 0x99, 0x88, 0x77, 0x66, 0x55, 0x44, 0x33, 0x22)
+					_ = grown
+					for _, t := range []string{"789", "20241231", s} {
+						wt, _ := refBCDEncode(t)
+						if gt, terr := bcd.Encode(t); terr != nil || gt == nil || string(*gt) != string(wt) {
+							c.Res.Violate("C12:encode:depends-on-earlier-result", fmt.Sprintf("bcd.Encode(%q) = %x after the caller appended to the slice an earlier Encode(%q) returned; expected %x", t, deref(gt), s, wt), map[string]any{"input": t, "earlier": s, "mode": tag}, caseNo)
+							break
+						}
+					}
+					if string(*first) != string(want) {
+						c.Res.Violate("C12:encode:depends-on-earlier-result", fmt.Sprintf("the result of bcd.Encode(%q) changed to %x when later strings were encoded", s, *first), map[string]any{"input": s, "mode": tag}, caseNo)
+					}
+				}
 			}
 			c.Res.Count("encode-ok", 1)
 		} else {
